@@ -87,14 +87,15 @@ static void h_op(void)
   int ip = (int) h_argi("ip", 0);
   int status;
 
-  if (!strcmp(op, "seed")) {
+  if (!strcmp(op, "seed") || !strcmp(op, "seedfast")) {
     if (R) esl_randomness_Destroy(R);
-    R = esl_randomness_Create((uint32_t) h_argu("s", 1));
+    R = !strcmp(op, "seed") ? esl_randomness_Create((uint32_t) h_argu("s", 1)) : esl_randomness_CreateFast((uint32_t) h_argu("s", 1));
     h_out("ok");
     return;
   }
   if (!R) { h_out("bad-op"); return; }
   if (!strcmp(op, "peek")) { h_out("ok %" PRIu32, esl_random_uint32(R)); return; }
+  if (!strcmp(op, "poke") && R->type != eslRND_MERSENNE) { h_out("bad-op"); return; }
   if (!strcmp(op, "poke")) {   /* force the next (pre-tempering) state word: reaches generator states that seeds make astronomically rare */
     if (R->mti >= 624) (void) esl_random_uint32(R);
     R->mt[R->mti] = (uint32_t) h_argu("raw", 0);
@@ -206,6 +207,13 @@ static void h_op(void)
     int nseq = split_commas(rv, &rows, &dup); int64_t alen; ESL_MSA *msa, *shuf;
     if (!strcmp(op, "vshuffle")) dig = 1;
     msa = mk_msa(dig, abc, rows, nseq, &alen);
+    if (h_argi("mixed", 0) && strcmp(op, "vshuffle")) {   /* <shuf> in the other mode: the documented eslEINVAL */
+      ESL_MSA *other = dig ? esl_msa_Create(nseq, alen) : esl_msa_CreateDigital(abc, nseq, alen);
+      status = !strcmp(op, "msashuffle") ? esl_msashuffle_Shuffle(R, msa, other) : esl_msashuffle_Bootstrap(R, msa, other);
+      h_out("%s", status == eslOK ? "ok-mixed" : h_status(status));
+      esl_msa_Destroy(other); esl_msa_Destroy(msa); free(rows); free(dup);
+      return;
+    }
     if (ip && strcmp(op, "bootstrap")) shuf = msa;
     else if (!strcmp(op, "vshuffle")) shuf = esl_msa_Clone(msa);
     else {
